@@ -332,7 +332,18 @@ def sf_issubclass(vm, x, c):
     if isinstance(x, OpaqueType) and x.tag == 'elemtype':
         return SBool(st['elem_composite'])
     if isinstance(x, OpaqueType) and x.tag == 'type(rhs)':
-        return st['kind'] == 'composite'
+        names = set(getattr(k, 'name', None) for k in (c if isinstance(c, tuple) else (c,)))
+        if st['kind'] != 'composite':
+            return False
+        if names == {'struct', 'union'}:
+            return True
+        if names and names <= {'struct', 'union'}:
+            # asked about one of the two only: a composite value may be either (universally quantified rhs)
+            if 'rhs_is_struct' not in st:
+                st['rhs_is_struct'] = vm.fresh('rhs_is_struct', z3.BoolSort())
+            b = st['rhs_is_struct']
+            return vm.decide(b if names == {'struct'} else z3.Not(b))
+        return NotImplemented
     return NotImplemented
 
 
